@@ -526,14 +526,14 @@ def gen_loop_bounded(rng: random.Random) -> dict:
 
 # ---------------------------------------------------------------- map_over
 
-def gen_map_node(rng: random.Random) -> dict:
+def gen_map_node(rng: random.Random, force: str | None = None) -> dict:
     """Outer graph with one mapping nested-graph node (zip/product, items that fail or branch differently)."""
     names = Names()
     # inner graph: a(x, y, c) -> r ; optional branch gate producing b or s depending on x
     branchy = rng.random() < 0.4
-    failing = rng.random() < 0.4
+    failing = rng.random() < 0.4 or force is not None
     inner_nodes = []
-    if failing and rng.random() < 0.5:
+    if failing and (rng.random() < 0.5 or force == "raise-multi"):
         body = {"b": "failGe", "k": rng.randint(1, 4), "t": "EA"}     # several items fail, each with its OWN error
     else:
         body = {"b": "failIf", "k": rng.randint(0, 3), "t": "EA"} if failing else {"b": "tag", "t": "a"}
@@ -582,7 +582,9 @@ def gen_map_node(rng: random.Random) -> dict:
         values.append([cur["c"], rand_value(rng)])
     rng.shuffle(values)
     c = {"program": [inner, outer], "values": values}
-    if body["b"] == "failGe" and rng.random() < 0.7:
+    if failing and (rng.random() < 0.5 or force == "continue-fail"):
+        gn["errMode"] = "continue"          # failed items must leave None placeholders, nothing else
+    if body["b"] == "failGe" and (rng.random() < 0.5 or force == "raise-multi") and force != "continue-fail":
         # several items fail, each with its own error: in raise mode the FIRST failing item (input order) decides, whatever finishes first
         gn["errMode"] = "raise"
         gn["mapMode"] = "zip"
@@ -602,6 +604,7 @@ def gen_interrupt(rng: random.Random) -> dict:
     prev = "x"
     n_int = rng.randint(1, 3)
     pos = 0
+    last_src = "x"
     for i in range(n_int):
         if rng.random() < 0.6:
             nn = names.fresh("n")
@@ -610,6 +613,9 @@ def gen_interrupt(rng: random.Random) -> dict:
             prev = out
         iname = f"ask{i}"
         outs = [f"ans{i}"] if rng.random() < 0.7 else [f"ans{i}", f"more{i}"]
+        if i > 0 and rng.random() < 0.35:
+            prev = last_src             # a SIBLING of the previous interrupt: both become ready in the same step
+        last_src = prev
         params = [[prev, None]]
         if prev != "x" and rng.random() < 0.3:
             params.append(["x", None])
